@@ -22,10 +22,13 @@ import (
 
 type c13cfg struct {
 	name      string
-	spec      int  // speculative attempts (0: none)
+	spec      int    // speculative attempts (0: none)
 	builtin   string // "", "simple2", "downgrade"
 	cancel    bool
-	hosts     int // default 3
+	hosts     int  // default 3
+	allDown   bool // every host is reported down before the query
+	batch     bool // the request is a batch
+	clusterRP bool // the cluster has a retry policy (Simple 2); the request opts out with RetryPolicy(nil)
 	outcomes  []string
 	t         [2]int
 }
@@ -96,10 +99,16 @@ func (p *scriptRP) GetRetryType(err error) gocql.RetryType {
 
 func (w *c13world) handler(ip string) vnode.Handler {
 	return vnode.Basic(func(n *vnode.Node, sc *vnode.ServerConn, rec *vnode.ReqRec) vnode.Reply {
-		q, ok := rec.Req.Msg.(*frame.Query)
-		if !ok {
+		var cons uint16
+		switch m := rec.Req.Msg.(type) {
+		case *frame.Query:
+			cons = m.Params.Consistency
+		case *frame.Batch:
+			cons = m.Consistency
+		default:
 			return vnode.Reply{Msg: frame.ResultVoid{}}
 		}
+		q := &frame.Query{Params: frame.QueryParams{Consistency: cons}}
 		out := w.cfg.outcomes[vs.Choose(len(w.cfg.outcomes), vs.CostF)]
 		w.attempts = append(w.attempts, attemptRec{w.next(), ip, out, q.Params.Consistency, vs.Clock()})
 		switch out {
@@ -146,6 +155,9 @@ func (c *c13cfg) body() {
 	cfg.HostDialer = cl.dialer()
 	cfg.PoolConfig.HostSelectionPolicy = recPolicy{gocql.RoundRobinHostPolicy(), w}
 	cfg.Consistency = gocql.Quorum
+	if c.clusterRP {
+		cfg.RetryPolicy = &gocql.SimpleRetryPolicy{NumRetries: 2}
+	}
 	vs.Quiet(true)
 	sess, err := gocql.VerifNewSession(*cfg, true)
 	vs.Quiet(false)
@@ -154,6 +166,14 @@ func (c *c13cfg) body() {
 		return
 	}
 
+	if c.allDown {
+		vs.Quiet(true)
+		for _, ip := range ips {
+			gocql.VerifMarkHostDown(sess, ip)
+		}
+		vs.WaitQuiescent()
+		vs.Quiet(false)
+	}
 	// configuration: all alternatives are explored (free choices)
 	idem := vs.Choose(2, vs.Free) == 1
 	var rp gocql.RetryPolicy
@@ -164,6 +184,8 @@ func (c *c13cfg) body() {
 		max = 2
 	case "downgrade":
 		rp = &gocql.DowngradingConsistencyRetryPolicy{ConsistencyLevelsToTry: []gocql.Consistency{gocql.One}}
+	case "nil-over-cluster":
+		// the cluster has SimpleRetryPolicy{2}; the request explicitly opts out with RetryPolicy(nil)
 	default:
 		max = vs.Choose(4, vs.Free) - 1 // -1: no retry policy; 0..2 retries
 		if max >= 0 {
@@ -172,8 +194,19 @@ func (c *c13cfg) body() {
 	}
 	ctx, cancel := context.WithCancel(context.Background())
 	q := sess.Query("QUERYX 'x'").WithContext(ctx).Idempotent(idem)
-	if rp != nil {
+	if rp != nil || c.clusterRP {
 		q = q.RetryPolicy(rp)
+	}
+	var batch *gocql.Batch
+	if c.batch {
+		batch = sess.NewBatch(gocql.UnloggedBatch).WithContext(ctx)
+		batch.Query("QUERYX 'b1'")
+		batch.Query("QUERYX 'b2'")
+		batch.SetConsistency(gocql.Quorum)
+		batch = batch.RetryPolicy(rp)
+		if idem {
+			batch.Entries[0].Idempotent, batch.Entries[1].Idempotent = true, true
+		}
 	}
 	if c.spec > 0 {
 		q = q.SetSpeculativeExecutionPolicy(&gocql.SimpleSpeculativeExecution{NumAttempts: c.spec, TimeoutDelay: 50 * time.Millisecond})
@@ -186,6 +219,19 @@ func (c *c13cfg) body() {
 	}
 	done := make(chan res, 1)
 	vs.GoNamed("caller", func() {
+		if batch != nil {
+			err := sess.ExecuteBatch(batch)
+			var rows []string
+			if err == nil {
+				for _, a := range w.attempts {
+					if !isErrOutcome(a.outcome) {
+						rows = []string{"ok@" + a.host}
+					}
+				}
+			}
+			vs.Send(done, res{rows, err, vs.Clock(), w.next()})
+			return
+		}
 		it := q.Iter()
 		var rows []string
 		var s string
@@ -259,6 +305,9 @@ func (c *c13cfg) body() {
 	// "no hosts available" (that one is for a query that could not be attempted at all)
 	if n > 0 && c.spec == 0 && cls == "no-connections" {
 		vs.Failf("c13:error-not-last-attempts", "%d attempt(s) were made but the caller got ErrNoConnections instead of the last attempt's error: %s", n, desc())
+	}
+	if rp == nil && c.spec == 0 && n > 1 {
+		vs.Failf("c13:retried-without-retry-policy", "the request has no retry policy (explicit RetryPolicy(nil) over the cluster's: %v) but reached servers %d times: %s", c.clusterRP, n, desc())
 	}
 	_, dDev, _ := vs.Deviations()
 	if c.spec == 0 && c.builtin == "" {
@@ -411,6 +460,11 @@ func main() {
 	cfgs := []*c13cfg{
 		{name: "scripted-policy-sequential", outcomes: errs, t: [2]int{2, 3}},
 		{name: "scripted-policy-1host", hosts: 1, outcomes: []string{"ok", "drop", "unavailable", "never"}, t: [2]int{2, 3}},
+		{name: "nil-policy-over-cluster-policy-query", builtin: "nil-over-cluster", clusterRP: true, outcomes: []string{"ok", "unavailable", "never"}, t: [2]int{2, 3}},
+		{name: "nil-policy-over-cluster-policy-batch", builtin: "nil-over-cluster", clusterRP: true, batch: true, outcomes: []string{"ok", "unavailable", "never"}, t: [2]int{2, 3}},
+		{name: "batch-scripted-policy", batch: true, outcomes: []string{"ok", "unavailable", "writetimeout", "never"}, t: [2]int{2, 3}},
+		{name: "speculative-all-hosts-down", spec: 1, allDown: true, outcomes: []string{"ok"}, t: [2]int{1, 2}},
+		{name: "sequential-all-hosts-down", allDown: true, outcomes: []string{"ok"}, t: [2]int{1, 2}},
 		{name: "scripted-policy-cancel", outcomes: []string{"ok", "unavailable", "never"}, cancel: true, t: [2]int{2, 3}},
 		{name: "simple2-builtin", builtin: "simple2", outcomes: []string{"ok", "unavailable", "never", "drop"}, t: [2]int{2, 3}},
 		{name: "speculative-1", spec: 1, outcomes: []string{"ok", "late", "never", "unavailable"}, t: [2]int{2, 3}},
